@@ -29,7 +29,7 @@ func addGroups(t *rapid.T, ty *desc.T, tag string) {
 		members := 0
 		for i := range ty.Fields {
 			f := &ty.Fields[i]
-			if f.T.K == "struct" || f.T.Elem != nil || f.T.K == "time" || !(f.Name[0] >= 'A' && f.Name[0] <= 'Z') {
+			if f.T.K == "struct" || f.T.Elem != nil || f.T.K == "time" || !desc.Exported(f.Name) {
 				continue
 			}
 			if first == "" {
